@@ -1,10 +1,17 @@
 PROP = {
     "id": "C44",
     "theorem_modules": ["Verif.Properties.C44"],
-    "min_theorems": 5,
+    "min_theorems": 11,
     "required_theorems": [
         "Verif.Properties.C44.tags_unchanged",
+        "Verif.Properties.C44.primitive_codes_unchanged",
+        "Verif.Properties.C44.encoded_lengths_unchanged",
+        "Verif.Properties.C44.field_orders_unchanged",
+        "Verif.Properties.C44.tags_distinct",
         "Verif.Properties.C44.cbor_roundtrip",
+        "Verif.Properties.C44.roundtrip",
+        "Verif.Properties.C44.statictype_roundtrip",
+        "Verif.Properties.C44.encode_injective",
     ],
     "gen": [["vtool", "gen-storedtags"]],
     "tool_files": ["tool_storedtags.go"],
